@@ -75,6 +75,12 @@ Definition L_wt_http := inline_all [("wt_http_scope", L_wt_http_scope)] (cl fn_w
 Definition L_relay_dial_up := inline_all lib1 (cl fn_relay_dial_up relay_dial_up).
 Definition L_relay_dial := inline_all (("relay_dial_up", L_relay_dial_up) :: lib1) (cl fn_relay_dial relay_dial).
 
+Definition L_rtc_setup := cl fn_rtc_setup rtc_setup.
+Definition L_rtc_cand := inline_all [("rtc_setup", L_rtc_setup)] (cl fn_rtc_cand rtc_cand).
+Definition L_rtc_listen_go := inline_all [("rtc_cand", L_rtc_cand)] (cl fn_rtc_listen_go rtc_listen_go).
+Definition L_rtc_dial_inner := cl fn_rtc_dial_inner rtc_dial_inner.
+Definition L_rtc_dial := inline_all [("rtc_dial_inner", L_rtc_dial_inner)] (cl fn_rtc_dial rtc_dial).
+
 Definition st_conn := mkSt Held Held Absent Absent 0 false None None [] false.   (* raw conn + scope given *)
 Definition st_raw := mkSt Held Absent Absent Absent 0 false None None [] false.    (* raw conn given, scope is the caller's *)
 Definition st_stream := mkSt Absent Absent Held Held 0 false None None [] false.
@@ -106,7 +112,10 @@ Definition entries : list (string * bool * st * list (list aev)) :=
    ("tcpreuse multiplexedListener.run connection goroutine", false, st_conn, L_tcpreuse_go);
    ("webtransport transport.Dial", true, st0, L_wt_dial);
    ("webtransport listener.httpHandler", false, st0, L_wt_http);
-   ("circuitv2 client.Dial", true, st0, L_relay_dial)].
+   ("circuitv2 client.Dial", true, st0, L_relay_dial);
+   ("webrtc listener.handleCandidate", true, st0, L_rtc_cand);
+   ("webrtc listener.listen candidate goroutine", false, st0, L_rtc_listen_go);
+   ("webrtc WebRTCTransport.Dial", true, st0, L_rtc_dial)].
 
 Definition entry_ok (e : string * bool * st * list (list aev)) : bool :=
   let '(_, vr, init, ps) := e in forallb (path_ok vr init) ps.
